@@ -419,18 +419,18 @@ open PebblesVerif
 
 /-- **`mergeMaps` / `mergeSlices` only move subtrees**: every scalar leaf of the merged value is a scalar
     leaf of the left or of the right operand (they create nothing but containers). -/
-theorem C09_no_invention_mergeMaps (left right m : List (String × J)) (h : mergeObj left right = .ok m) :
-    ∀ x ∈ leavesO m, x ∈ leavesO left ∨ x ∈ leavesO right := mergeObj_leaves right left m h
+theorem C09_no_invention_mergeMaps (safe : Bool) (left right m : List (String × J)) (h : mergeObj safe left right = .ok m) :
+    ∀ x ∈ leavesO m, x ∈ leavesO left ∨ x ∈ leavesO right := mergeObj_leaves safe right left m h
 
-theorem C09_no_invention_mergeSlices (left right m : List J) (h : mergeArr left 0 right = .ok m) :
-    ∀ x ∈ leavesL m, x ∈ leavesL left ∨ x ∈ leavesL right := mergeArr_leaves right left 0 m h
+theorem C09_no_invention_mergeSlices (safe : Bool) (left right m : List J) (h : mergeArr safe left 0 right = .ok m) :
+    ∀ x ∈ leavesL m, x ∈ leavesL left ∨ x ∈ leavesL right := mergeArr_leaves safe right left 0 m h
 
 /-- **No invention.** Merging the step results of an execution into the (initially empty) result, in any
     order the steps complete: every scalar leaf of `data` is a scalar leaf of one of the step results. -/
-theorem C09_no_invention (results : List (List (String × J))) (m : List (String × J))
-    (h : mergeAll [] results = .ok m) : ∀ x ∈ leavesO m, ∃ r ∈ results, x ∈ leavesO r := by
+theorem C09_no_invention (safe : Bool) (results : List (List (String × J))) (m : List (String × J))
+    (h : mergeAll safe [] results = .ok m) : ∀ x ∈ leavesO m, ∃ r ∈ results, x ∈ leavesO r := by
   intro x hx
-  rcases mergeAll_leaves results [] m h x hx with h1 | h1
+  rcases mergeAll_leaves safe results [] m h x hx with h1 | h1
   · simp [leavesO] at h1
   · exact h1
 
@@ -453,14 +453,24 @@ theorem C09_no_invention_unwrap (f : Gen.QueryBatchFacts.Facts) (c : Bool) (d : 
       · cases h
       · cases h; simp [leavesO] at hx
 
+/-- **The merge never panics** once ids are compared with `reflect.DeepEqual` (`repo_fixes/faults-5`): merging any
+    step results, of any shape, yields a value. -/
+theorem C09_merge_no_panic_of (results : List (List (String × J))) : ∃ m, mergeAll true [] results = .ok m :=
+  mergeAll_safe results []
+
+theorem C09_merge_no_panic (results : List (List (String × J))) :
+    ∃ m, mergeAll Gen.QueryBatchFacts.facts.safeIdCompare [] results = .ok m := by
+  have : Gen.QueryBatchFacts.facts.safeIdCompare = true := by rw [QB.C09_decode_facts]; rfl
+  rw [this]; exact mergeAll_safe results []
+
 /-- non-vacuity: a merge that matches list elements by `id`, merges nested maps and appends -/
-example : mergeObj [("l", .arr [.obj [("id", .str "1"), ("a", .num "1")]])]
+example : mergeObj true [("l", .arr [.obj [("id", .str "1"), ("a", .num "1")]])]
     [("l", .arr [.obj [("id", .str "1"), ("b", .num "2")], .obj [("id", .str "2")]]), ("k", .bool true)]
     = .ok [("l", .arr [.obj [("id", .str "1"), ("a", .num "1"), ("b", .num "2")], .obj [("id", .str "2")]]), ("k", .bool true)] := by
   rfl
 
-/-- the model keeps Go's run-time panic: two list elements whose `id`s are both maps -/
-example : mergeArr [.obj [("id", .obj [])]] 0 [.obj [("id", .obj [])]]
+/-- before `faults-5` (`==`): two list elements whose `id`s are both maps are a run-time panic -/
+example : mergeArr false [.obj [("id", .obj [])]] 0 [.obj [("id", .obj [])]]
     = .error "runtime error: comparing uncomparable type map[string]interface {}" := by rfl
 
 end PebblesVerif.Merge
